@@ -102,11 +102,20 @@ func main() {
 	addr := func(t triple, n uint64, depth, maxf int, island uint64, kind string) {
 		key := t.S + t.R + t.W
 		gh := xxhash.Sum64([]byte(key))
-		sdk1 := t.sdk().GetIslandID(n)
-		sdk2 := t.sdk().GetIslandID(n)
+		var islandPanic string
+		safe := func(f func() uint64) (v uint64) {
+			defer func() {
+				if p := recover(); p != nil {
+					islandPanic = fmt.Sprint(p)
+				}
+			}()
+			return f()
+		}
+		sdk1 := safe(func() uint64 { return t.sdk().GetIslandID(n) })
+		sdk2 := safe(func() uint64 { return t.sdk().GetIslandID(n) })
 		var srv *uint64
 		if n < 65536 {
-			v := uint64(t.srv().GetFolderNumber(uint16(n)))
+			v := safe(func() uint64 { return uint64(t.srv().GetFolderNumber(uint16(n))) })
 			srv = &v
 		}
 		p1, pm := fullPath(t, island, depth, maxf)
@@ -134,7 +143,10 @@ func main() {
 		if p1 != nil {
 			d["path"] = *p1
 		}
-		run.Add(term, d, nt)
+		idx := run.Add(term, d, nt)
+		if islandPanic != "" {
+			run.Violate(idx, "island in 1..N", "island_computation_panics", islandPanic)
+		}
 		run.Hist("addr")
 		if beyond {
 			run.Hist("addr_depth_beyond_hash_string")
